@@ -100,6 +100,18 @@ class World(object):
         self.obj['llF'] = chi.LogLikelihood(
             f_mech, [chi.GaussianErrorModel()], [1.4, 0.9, 0.5], [0.5, 1.5, 2.5])
         self.obj['llF'].fix_parameters({'central.size': 1.3})
+        # naive-pooled analysis from one controller: the hierarchical posterior and
+        # the population predictive model
+        cp = chi.ProblemModellingController(ToyModel(2, 1), [chi.GaussianErrorModel()])
+        cp.set_population_model(chi.PooledModel(n_dim=3))
+        cp.set_data(pd.DataFrame({
+            'ID': [1, 1, 2, 2], 'Time': [0.3, 1.1, 0.3, 1.1],
+            'Observable': ['o0'] * 4, 'Value': [1.3, 2.1, 1.1, 2.4]}),
+            output_observable_dict={'o0': 'o0'})
+        cp.set_log_prior(pints.ComposedLogPrior(*[
+            pints.UniformLogPrior(0, 10) for _ in range(3)]))
+        self.obj['hpostP'] = cp.get_log_posterior()
+        self.obj['ppredP'] = cp.get_predictive_model()
         self.obj['predR'] = chi.PredictiveModel(ToyModel(2, 1), [self.user_err_red])
         self.obj['predR2'] = chi.PredictiveModel(ToyModel(2, 1),
                                                  [self.user_err_red])
@@ -133,10 +145,14 @@ POINTS = {
                        0.1, 0.2, 0.5, 0.9, 0.2, -0.7, 0.4])],
     'llR': [np.array([1.1, 0.6, 0.4]), np.array([0.8, 0.9, 0.3])],
     'llF': [np.array([0.3, 0.8, 0.5]), np.array([0.2, 1.1, 0.7])],
+    'hpostP': [np.array([1.1, 0.7, 0.4]), np.array([0.9, 0.5, 0.6])],
     'filter': [np.array([[[1.2, 2.2, 1.0]], [[0.8, 1.9, 1.6]], [[1.5, 2.8, 1.2]],
                          [[1.1, 2.5, 1.4]]]),
                np.array([[[0.9, 2.4, 1.3]], [[1.1, 2.0, 0.9]], [[1.6, 3.1, 1.5]],
-                         [[1.3, 2.7, 1.0]]])],
+                         [[1.3, 2.7, 1.0]]]),
+               # another number of simulated individuals
+               np.array([[[1.0, 2.1, 1.2]], [[0.7, 2.6, 0.8]], [[1.4, 1.8, 1.7]],
+                         [[1.2, 2.3, 1.1]], [[0.9, 2.9, 1.4]], [[1.6, 2.0, 0.9]]])],
     'fpost': [np.array([0.2, 0.5, 1.1, 1.2, 0.9, 1.6, 0.1, -0.3, 0.4, 0.2, -0.1,
                         0.5, -0.4, 0.3, 0.0]),
               np.array([0.4, 0.3, 0.8, 1.0, 1.5, 0.7, -0.2, 0.1, 0.3, -0.5, 0.6,
@@ -269,7 +285,7 @@ def ptype(name):
     if name.startswith('filter'):
         return 'filter'
     return {'llA': 'll', 'llB': 'll', 'postA': 'll', 'postB': 'll', 'hier': 'hier',
-            'fpost': 'fpost', 'llR': 'llR', 'llF': 'llF'}[name]
+            'fpost': 'fpost', 'llR': 'llR', 'llF': 'llF', 'hpostP': 'hpostP'}[name]
 
 
 def all_ops():
@@ -281,12 +297,13 @@ def all_ops():
     for name in ('llA', 'llB'):
         ops.append(['pw', name, 0])
         ops.append(['fail', name, 0])
-    for k in (0, 1):
+    for k in (0, 1, 2):
         ops.append(['fll', 'filter', k])
         ops.append(['fS1', 'filter', k])
     for name in ('filterG', 'filterLN', 'filterLNKDE', 'filterGM', 'filterC'):
         ops.append(['fll', name, 0])
         ops.append(['fS1', name, 0])
+        ops.append(['fll', name, 2])
     ops.append(['sample', 'pred', 3])
     ops.append(['sample', 'pred', 4])
     ops.append(['init', 'postA', 3])
@@ -297,6 +314,11 @@ def all_ops():
     for k in (0, 1):
         ops.append(['call', 'llF', k])
         ops.append(['S1', 'llF', k])
+    for k in (0, 1):
+        ops.append(['call', 'hpostP', k])
+        ops.append(['S1', 'hpostP', k])
+    for ns in (1, 3):
+        ops.append(['sampleP', 'ppredP', ns])
     ops.append(['psample', 'priorpred', 0])
     ops.append(['psample', 'priorpred', 4])
     for m in ('mut_outputs', 'mut_regimen', 'mut_adm', 'mut_sens', 'mut_names',
@@ -348,6 +370,12 @@ def apply(world, op):
         t0, th0 = times.copy(), theta.copy()
         r = o.sample(theta, times, n_samples=2, seed=k, return_df=False)
         return [r], np.array_equal(times, t0) and np.array_equal(theta, th0)
+    if kind == 'sampleP':
+        # k virtual patients (another number than the individuals in the data)
+        times = np.array([2.0, 0.5, 1.2])
+        r = o.sample(np.array([1.1, 0.7, 0.4]), times, n_samples=k, seed=3,
+                     return_df=False)
+        return [r], True
     if kind == 'psample':
         times = np.array([2.0, 0.5, 1.2])
         df = o.sample(times, n_samples=2, seed=k)
